@@ -192,7 +192,7 @@ int main(void) {
         int n = tok->len;
         if (convert_pp_int(tok)) printf("lit int %lx %s %d\n", (unsigned long)tok->val, ty_name(tok->ty), n);
         else printf("lit flt %d\n", n);
-      } else printf("lit err\n");
+      } else printf("lit err not-a-literal\n");
     } else if (!strcmp(op, "text") && arg) {
       int len; char *p = parse_bytes(arg, &len);
       if (!p) { printf("bad-op\n"); continue; }
